@@ -51,7 +51,7 @@ def _mk_preserve(v):
 
 def _mk_rao(pm, fields):
     from python_minifier.transforms.remove_annotations_options import RemoveAnnotationsOptions
-    return RemoveAnnotationsOptions(*[bool(x) for x in fields])
+    return RemoveAnnotationsOptions(*list(fields))
 
 
 def build_call(pm, call, sources, lists, opts):
@@ -101,7 +101,7 @@ def run_ref_job(spec):
     import json
     import python_minifier as pm
     _silence_stderr()
-    want_out = bool(spec.get('want_outputs'))
+    want_out = True
     results = []
     calls = spec['calls']
     for call in calls[:-1]:
@@ -160,8 +160,10 @@ def _defaults_state(pm):
 def run_api_job(spec):
     import python_minifier as pm
     _silence_stderr()
-    want_out = bool(spec.get('want_outputs'))
-    want_sched = bool(spec.get('want_schedule'))
+    # the job line is identical for exploration, confirmation and replay (no 'want_*' switches): the heap of the
+    # child, and with it id()-ordered iteration and the exact step count, must not depend on what the driver asks for
+    want_out = True
+    want_sched = True
     sources = [wire.dec_src(s) for s in spec['sources']]
     src_snap = [(type(s).__name__, hashlib.sha256(s if isinstance(s, bytes) else s.encode('utf-8', 'surrogatepass')).hexdigest())
                 for s in sources]
@@ -320,6 +322,5 @@ def run_api_job(spec):
     result['i2'] = i2
     result['digest'] = hashlib.sha256('\n'.join(events).encode('utf-8')).hexdigest()
     result['n_events'] = len(events)
-    if spec.get('want_events'):
-        result['events'] = events
+    result['events'] = events[:300]
     return result
